@@ -742,6 +742,16 @@ int main(int argc, char **argv)
     if (args.has("replay-raw")) { return xs::replay_main(h, args.get("replay-raw")); }
 
     int rc = vx::run_contained([&] {
+        // the entry macro recovers the enclosing element from a node embedded at a non-zero offset, also for expression arguments
+        {
+            struct W { char pad[24]; tnode n; long tail; };
+            static W w[3];
+            tnode *pn = &w[0].n;
+            if (T(entry)(&w[1].n, W, n) != &w[1] || T(entry)(pn + 0, W, n) != &w[0] || &T(entry)(&w[2].n, W, n)->tail != &w[2].tail)
+            {
+                vx::viol(TNAME "|entry-macro", "the entry macro does not recover the enclosing element from its embedded node", "{\"job\":" + vx::jstr(h.job) + "}");
+            }
+        }
         int last_full = 0;
         bool all_fix = true;
         // bounds iterated: the largest completed one is reported
